@@ -55,6 +55,8 @@ struct State {
     cvs: Vec<Arc<Condvar>>,
     /// threads waiting for a lock held elsewhere: re-enabled as soon as another thread takes a step
     retry: Vec<bool>,
+    /// see `set_fine_points`
+    fine_points: bool,
 }
 
 pub struct Exec {
@@ -327,6 +329,15 @@ pub fn block_on<F: Future>(f: F) -> F::Output {
     }
 }
 
+/// Polls a future exactly once on the calling controlled thread (a parent that then turns to something else).
+/// The waker only marks the thread as woken, which `block_on` consults when the future is driven again later.
+pub fn poll_once<F: Future + Unpin>(f: &mut F) -> Poll<F::Output> {
+    let (e, me) = cur_sched().expect("poll_once outside controlled thread");
+    let waker = Waker::from(Arc::new(W { e: e.clone(), tid: me }));
+    let mut cx = Context::from_waker(&waker);
+    std::pin::Pin::new(f).poll(&mut cx)
+}
+
 pub struct JoinHandle<T> {
     tid: usize,
     res: Arc<Mutex<Option<std::thread::Result<T>>>>,
@@ -451,6 +462,7 @@ pub fn run_one_h(prefix: &[usize], horizon: usize, body: impl FnOnce() + Send + 
             last_progress: Instant::now(),
             cvs: vec![Arc::new(Condvar::new())],
             retry: vec![false],
+            fine_points: false,
         }),
         cv: Condvar::new(),
     });
@@ -654,12 +666,26 @@ pub fn for_all_scripts<T>(mut f: impl FnMut() -> T, mut visit: impl FnMut(&[usiz
 
 // ---------------------------------------------------------------- verif_hooks bridge
 
+/// Schedule points that are switched on per execution (they multiply the schedule space of every other harness):
+/// the points inside singleflight's map-lock sections.  Called by the body of a harness before it spawns threads.
+pub fn set_fine_points(on: bool) {
+    if let Some((e, _)) = cur_sched() {
+        e.m.lock().unwrap().fine_points = on;
+    }
+}
+fn fine_points() -> bool {
+    cur_sched().map(|(e, _)| e.m.lock().unwrap().fine_points).unwrap_or(false)
+}
+
 struct Bridge;
 impl verif_hooks::Handler for Bridge {
     fn controlled(&self) -> bool {
         controlled()
     }
     fn point(&self, label: &'static str) {
+        if label.starts_with("sf.map.locked") && !fine_points() {
+            return;
+        }
         point(label)
     }
     fn choose(&self, label: &'static str, n: usize) -> usize {
